@@ -14,6 +14,43 @@ from ..sym import SymClient, empty_state, expand_items, is_token, token_class
 APP_CONTEXT = '1.2.840.10008.3.1.1.1'   # PS3.7 Annex A: DICOM application context name
 
 
+def _registered_key_sources(fn, table):
+    """The iterables whose items become keys of ``self.<table>`` in ``fn``: through ``update({k: v for k in X})``,
+    ``update(dict.fromkeys(X, v))``, ``update(dict(zip(X, ...)))``, ``update((k, v) for k in X)`` or a loop storing
+    ``self.<table>[k] = v`` for k in X.  -> ([source terms], [problems with the key expression])"""
+    srcs, probs = [], []
+    tname = 'self.%s' % table
+
+    def of_mapping(e):
+        if isinstance(e, ast.DictComp):
+            if norm(e.key) != norm(e.generators[0].target):
+                probs.append('service table keyed by %s' % norm(e.key))
+            return norm(e.generators[0].iter)
+        if isinstance(e, ast.Call) and norm(e.func) == 'dict.fromkeys' and e.args:
+            return norm(e.args[0])
+        if isinstance(e, ast.Call) and norm(e.func) == 'dict' and len(e.args) == 1:
+            return of_mapping(e.args[0])
+        if isinstance(e, ast.Call) and norm(e.func) in ('zip', 'six.moves.zip') and e.args:
+            return norm(e.args[0])
+        if isinstance(e, (ast.GeneratorExp, ast.ListComp)) and isinstance(e.elt, ast.Tuple) and len(e.elt.elts) == 2:
+            if norm(e.elt.elts[0]) != norm(e.generators[0].target):
+                probs.append('service table keyed by %s' % norm(e.elt.elts[0]))
+            return norm(e.generators[0].iter)
+        return None
+    for n in ast.walk(fn.node):
+        if isinstance(n, ast.Call) and norm(n.func) == tname + '.update' and n.args:
+            src = of_mapping(n.args[0])
+            srcs.append(src if src is not None else norm(n.args[0]))
+        elif isinstance(n, ast.For):
+            for st in ast.walk(n):
+                if isinstance(st, ast.Assign) and any(isinstance(t, ast.Subscript) and norm(t.value) == tname for t in st.targets):
+                    t = next(t for t in st.targets if isinstance(t, ast.Subscript) and norm(t.value) == tname)
+                    if norm(t.slice) != norm(n.target):
+                        probs.append('service table keyed by %s' % norm(t.slice))
+                    srcs.append(norm(n.iter))
+    return srcs, probs
+
+
 def run(repo, rep):
     hier = exc_hierarchy(repo)
     ae = repo.cls('applicationentity', 'AEBase')
@@ -161,17 +198,16 @@ def run(repo, rep):
             raise AnalysisError('%s.%s not found' % (cname, mname))
         rep.analysed(fn)
         probs = []
-        ups = [n for n in ast.walk(fn.node) if isinstance(n, ast.Call) and norm(n.func) == 'self.%s.update' % table]
+        srcs, key_probs = _registered_key_sources(fn, table)
         ctx = [n for n in ast.walk(fn.node) if isinstance(n, ast.Call) and norm(n.func) == 'self.update_context_def_list']
-        if not ups or not ctx:
+        if not srcs or not ctx:
             probs.append('does not both register the service and allocate presentation contexts')
         else:
-            comp = ups[0].args[0] if ups[0].args else None
-            src = norm(comp.generators[0].iter) if isinstance(comp, ast.DictComp) else None
-            if src is None or norm(ctx[0].args[0]) != src:
-                probs.append('services are registered for %s but contexts are allocated for %s' % (src, norm(ctx[0].args[0])))
-            if isinstance(comp, ast.DictComp) and norm(comp.key) != norm(comp.generators[0].target):
-                probs.append('service table keyed by %s' % norm(comp.key))
+            probs.extend(key_probs)
+            want = norm(ctx[0].args[0]) if ctx[0].args else '?'
+            for src in srcs:
+                if src != want:
+                    probs.append('services are registered for %s but contexts are allocated for %s' % (src, want))
         rep.check(not probs, 'C11.Q5', 'applicationentity:%s.%s:registration' % (cname, mname), fn.loc(),
                   'every registered SOP class gets a presentation context definition', '; '.join(probs))
 
